@@ -4,6 +4,7 @@ import IgrisModel.C16.Ext
 import IgrisModel.C16.WrapN
 import IgrisModel.C16.Guard
 import IgrisModel.C16.Delegate
+import IgrisModel.C16.Tie
 import IgrisModel.Common.Proto
 open Igris.Proto Igris.C16
 
@@ -83,7 +84,10 @@ def cbOf? (rules : List Rule) : Option Cb :=
 inductive St where
   | none
   /-- `timer_manager` over int64: number of timers, manager, last `now`, the unarmed timer (if any) -/
-  | mgr (n : Nat) (m : Mgr) (cur : Int) (unarmed : Option Nat)
+  | mgr (n : Nat) (m : Mgr) (cur : Int) (unarmed : Option Nat) (td : Bool)
+  /-- the outcome of the case depends on the order among timers with equal deadlines (which the property leaves
+  open): nothing more is compared until the next `reset` (the harness prints the same token; its oracle goes on) -/
+  | tainted
   /-- `timer_manager_basic<timer_spec<uint32_t>>`; op lines carry unbounded tick values -/
   | mgrW (n : Nat) (m : MgrW) (cur : W32)
   | st (t : STimer)
@@ -108,9 +112,11 @@ def summaryW (n : Nat) (m : MgrW) (cur : W32) : String :=
     (match m.minimalInterval cur with | some d => toString d.toNat | none => "-")
 
 def showFires (fs : List Fire) : String :=
+  let fs := canonFires Fire.id (fun a b => a.deadline == b.deadline) fs
   if fs.isEmpty then "-" else ",".intercalate (fs.map fun f => toString f.id ++ ":" ++ toString f.deadline)
 
 def showFiresW (fs : List FireW) : String :=
+  let fs := canonFires FireW.id (fun a b => a.deadline == b.deadline) fs
   if fs.isEmpty then "-" else ",".intercalate (fs.map fun f => toString f.id ++ ":" ++ toString f.deadline.toNat)
 
 def showST (t : STimer) : String :=
@@ -135,9 +141,34 @@ def compactW (n : Nat) (m : MgrW) : MgrW :=
 /-- the repaired code compares deadlines by the sign of their difference -/
 def drvCmp : Cmp := .signedDiff
 
-def stepMgr (n : Nat) (m : Mgr) (cur : Int) (un : Option Nat) (op : String) (args : List String) :
+def tieToken : String := "tie-dependent"
+
+def hasSetter (rules : List Rule) : Bool :=
+  rules.any fun r => r.acts.any fun a => match a with | .setStart _ _ | .setInterval _ _ => true | _ => false
+
+def hasActs (rules : List Rule) : Bool := rules.any fun r => !r.acts.isEmpty
+
+def anyTieMgr (m : Mgr) : Bool := anyDup (m.lst.map fun j => (m.tm j).finish)
+
+def nextMgr (n : Nat) (cbx : CbX) (now : Int) (k : Nat) (m : Mgr) : Option (TieIn × Mgr) :=
+  match m.headDue now with
+  | Option.none => Option.none
+  | some h =>
+    let d := (m.tm h).finish
+    let r := execG cbx 1 now k m
+    some (⟨h, d, m.lst.filter (fun j => (m.tm j).finish == d), anyTieMgr m⟩, compact n r.1)
+
+def nextW (n : Nat) (cb : CbW) (nw : W32) (k : Nat) (m : MgrW) : Option (TieIn × MgrW) :=
+  match m.headDue nw with
+  | Option.none => Option.none
+  | some h =>
+    let d := (m.tm h).finish
+    let r := execLoopW drvCmp cb nw 1 k m
+    some (⟨h, d.toNat, m.lst.filter (fun j => (m.tm j).finish == d), false⟩, compactW n r.1)
+
+def stepMgr (n : Nat) (m : Mgr) (cur : Int) (un : Option Nat) (td : Bool) (op : String) (args : List String) :
     Option (St × String) :=
-  let ret (m' : Mgr) (cur' : Int) (s : String) : Option (St × String) := some (.mgr n (compact n m') cur' un, s)
+  let ret (m' : Mgr) (cur' : Int) (s : String) : Option (St × String) := some (.mgr n (compact n m') cur' un td, s)
   match op, args with
   | "plan", [i, st, iv] | "plan1", [i, st, iv] => do
     let i ← i.toNat?; let st ← st.toInt?; let iv ← iv.toInt?
@@ -176,24 +207,28 @@ def stepMgr (n : Nat) (m : Mgr) (cur : Int) (un : Option Nat) (op : String) (arg
     let vis (fs : List Fire) := match un with
       | some u => fs.filter (fun f => f.id != u)
       | Option.none => fs
+    let cbxT : CbX := fun k i => if some i = un then [] else cbXOf rules k i
+    if (td || hasActs rules) && tieScan (nextMgr n cbxT now) cbxT now td driverFuel 0 m {} then
+      some (.tainted, tieToken)
+    else
     match cbOf? rules, un with
     | some cb, Option.none =>
       let r := execLoop cb now driverFuel 0 m
       if r.2.2 then ret r.1 now ("f=" ++ showFires r.2.1 ++ " " ++ summary n r.1 now)
-      else some (.mgr n r.1 now un, "nonterm")
+      else some (.mgr n r.1 now un td, "nonterm")
     | _, _ =>
       let cbx : CbX := fun k i => if some i = un then [] else cbXOf rules k i
       let r := execG cbx driverFuel now 0 m
       match r.2.2 with
       | .done => ret r.1 now ("f=" ++ showFires (vis r.2.1) ++ " " ++ summary n r.1 now)
-      | .running => some (.mgr n r.1 now un, "nonterm")
-      | .uaf => some (.mgr n r.1 now un, "fault")
+      | .running => some (.mgr n r.1 now un td, "nonterm")
+      | .uaf => some (.mgr n r.1 now un td, "fault")
   | "qmin", [now] => do
     let now ← now.toInt?
-    some (.mgr n m now un, toString (m.minimalIntervalC 9223372036854775807 now))
+    some (.mgr n m now un td, toString (m.minimalIntervalC 9223372036854775807 now))
   | "q", [now] => do
     let now ← now.toInt?
-    some (.mgr n m now un, summary n m now)
+    some (.mgr n m now un td, summary n m now)
   | _, _ => Option.none
 
 def baseActs? (rules : List Rule) : Option CbW :=
@@ -214,6 +249,9 @@ def stepMgrW (n : Nat) (m : MgrW) (cur : W32) (op : String) (args : List String)
     let now ← now.toInt?
     let rules ← parseRules? rules
     let cb ← baseActs? rules
+    if hasActs rules && tieScan (nextW n cb (wr now)) (cbXOf rules) now false driverFuel 0 m {} then
+      some (.tainted, tieToken)
+    else
     let r := execLoopW drvCmp cb (wr now) driverFuel 0 m
     if r.2.2 then ret r.1 (wr now) ("f=" ++ showFiresW r.2.1 ++ " " ++ summaryW n r.1 (wr now))
     else some (.mgrW n r.1 (wr now), "nonterm")
@@ -232,6 +270,7 @@ def summaryN {w : Nat} (sgn tsg : Bool) (n : Nat) (m : MgrN w) (cur : BitVec w) 
     (match m.minimalInterval cur with | some d => showTick sgn d | none => "-")
 
 def showFiresN {w : Nat} (sgn : Bool) (fs : List (FireN w)) : String :=
+  let fs := canonFires FireN.id (fun a b => a.deadline == b.deadline) fs
   if fs.isEmpty then "-" else ",".intercalate (fs.map fun f => toString f.id ++ ":" ++ showTick sgn f.deadline)
 
 def compactN {w : Nat} (n : Nat) (m : MgrN w) : MgrN w :=
@@ -243,6 +282,15 @@ def cbOffN (w : Nat) (off : Int) (cb : Cb) : CbN w := fun k i =>
   (cb k i).map fun a => match a with
     | .unplan j => ActionN.unplan j
     | .plan j s iv => ActionN.plan j (wrN w (s + off)) (wrN w iv)
+
+def nextN {w : Nat} (sgn : Bool) (n : Nat) (cb : CbN w) (nw : BitVec w) (k : Nat) (m : MgrN w) :
+    Option (TieIn × MgrN w) :=
+  match m.headDue sgn nw with
+  | Option.none => Option.none
+  | some h =>
+    let d := (m.tm h).finish
+    let r := execLoopN sgn cb nw 1 k m
+    some (⟨h, d.toNat, m.lst.filter (fun j => (m.tm j).finish == d), false⟩, compactN n r.1)
 
 def stepMgrN (w : Nat) (sgn tsg : Bool) (off : Int) (n : Nat) (m : MgrN w) (cur : BitVec w) (op : String)
     (args : List String) : Option (St × String) :=
@@ -262,6 +310,9 @@ def stepMgrN (w : Nat) (sgn tsg : Bool) (off : Int) (n : Nat) (m : MgrN w) (cur 
     let rules ← parseRules? rules
     let cb ← cbOf? rules
     let nw := wrN w (now + off)
+    if hasActs rules && tieScan (nextN sgn n (cbOffN w off cb) nw) (cbXOf rules) now false driverFuel 0 m {} then
+      some (.tainted, tieToken)
+    else
     let r := execLoopN sgn (cbOffN w off cb) nw driverFuel 0 m
     if r.2.2 then ret r.1 nw ("f=" ++ showFiresN tsg r.2.1 ++ " " ++ summaryN sgn tsg n r.1 nw)
     else some (.mgrN w sgn tsg off n r.1 nw, "nonterm")
@@ -410,16 +461,29 @@ def stepLine (s : St) (line : String) : St × String :=
     | _, _ => bad
   | ["reset", "z", n] =>
     match n.toNat? with
-    | some n => (.mgr n Mgr.init 0 (some (n - 1)), "ok")
+    | some n => (.mgr n Mgr.init 0 (some (n - 1)) false, "ok")
     | Option.none => bad
   | ["reset", n] =>
     match n.toNat? with
-    | some n => (.mgr n Mgr.init 0 Option.none, "ok")
+    | some n => (.mgr n Mgr.init 0 Option.none false, "ok")
     | Option.none => bad
   | op :: args =>
     match s with
     | .none => bad
-    | .mgr n m cur un => (stepMgr n m cur un op args).getD bad
+    | .tainted => (s, tieToken)
+    | .mgr n m cur un td =>
+      -- a setter that hits a planned timer, or an exec whose callbacks use setters: from here on the list may be
+      -- unsorted and what happens depends on the positions of timers with equal deadlines
+      let tdOp : Bool := match op, args with
+        | "sets", [i, _] | "seti", [i, _] => (i.toNat?.map (fun i => m.lst.contains i)).getD false
+        | "exec", [_, rules] => ((parseRules? rules).map hasSetter).getD false
+        | _, _ => false
+      let td' := td || tdOp
+      match stepMgr n m cur un td' op args with
+      | some (.mgr n' m' cur' un' t', r) =>
+        if td' && (anyTieMgr m || anyTieMgr m') then (.tainted, tieToken) else (.mgr n' m' cur' un' t', r)
+      | some x => x
+      | Option.none => bad
     | .mgrW n m cur => (stepMgrW n m cur op args).getD bad
     | .st t => (stepST t op args).getD bad
     | .stW t => (stepSTW t op args).getD bad
